@@ -36,7 +36,7 @@ extern "C" void harness_c07_powers()
 {
     static const long QN[][2] = {{1, 2}, {-1, 2}, {1, 3}, {2, 3}, {3, 2}, {-3, 4}, {5, 6}, {2, 1}, {-1, 1}, {3, 1}, {-2, 1}, {1, 4}};
     auto pick = [&](const char *name, long &n, long &d) {
-        unsigned i = (unsigned)verif_choice(name, 12);
+        unsigned i = (unsigned)verif_choice(name, verif_param("nexp", 12));
         n = QN[i][0];
         d = QN[i][1];
         return qnum(n, d);
